@@ -528,6 +528,9 @@ func (fv *FV) contractMentions(counter string) bool {
 	for _, pa := range c.PreAssigns {
 		scan([]*Clause{pa.Cl})
 	}
+	if c.PanicsWhen != nil {
+		scan([]*Clause{c.PanicsWhen})
+	}
 	for _, l := range c.Loops {
 		scan(l.Inv)
 	}
